@@ -75,7 +75,7 @@ func firstPrintRaces() bool {
 
 // op is one printing call on the shared module.
 type op struct {
-	Kind string // String WriteTo Func Block Inst Ident Type
+	Kind    string // String WriteTo Func Block Inst Ident Type
 	F, B, I int
 }
 
